@@ -19,7 +19,7 @@ func init() {
 		ID: "C09", Level: "model_checking",
 		Rule:   "ELX: catalogue of stream-scoped offences (malformed request with the offending field first / in the middle / last of a block that inserts dynamic-table entries, split over CONTINUATION or not; oversized body; content-length mismatch; refused stream over the concurrency limit with an inserting block; peer RST_STREAM before the body / mid-body / while the handler runs / while the response is flow-blocked; handler panic; stream WINDOW_UPDATE(0) and overflow; DATA, trailers(+CONTINUATION) and WINDOW_UPDATE in flight after the server's own reset) placed among well-formed streams V1 (opened before) and V2 (opened after, its header block referencing the entries the offending block inserted): all interleavings of the offending stream's frames with V1's frames, V2 afterwards, all handler completion orders. Oracle: V1 and V2 dispatched once, intact, answered intact; no GOAWAY, connection stays open. Non-trivial: every scenario (>= 2 streams); distinct by (offence, interleaving, completion order).",
 		Assume: []string{"the peer keeps sending frames it had queued before the server's RST_STREAM arrives (frames in flight)", "canonical internal schedule between events"},
-		Run:    runC09, Replay: replayC09, QuickS: 120, ThoroughS: 600,
+		Run:    runC09, Replay: replayC09, Policies: 1, QuickS: 120, ThoroughS: 600,
 	})
 }
 
